@@ -3,7 +3,7 @@ import os
 from vcommon import Check
 
 c = Check("C06")
-c.translate(needed=["Gen_C06.v", "Gen_C06ccitt.v"])
+c.translate(needed=["Gen_C06.v", "Gen_C06ccitt.v", "Gen_C06ccitt2d.v"])
 c.coq(["C06"], "C06", "Prop_C06.v")
 drv = c.model("C06")
 h = c.harness("c06")
